@@ -191,6 +191,8 @@ class CallMixin:
 
     def len_(self, v, st, n=None):
         if isinstance(v, VOpt): v = self.need(st, v, "TypeError", n)
+        if isinstance(v, VList) and any(isinstance(i, tuple) for i in v.items):
+            return VNum(z3.IntVal(0), z3.Sum([ITE(simp(i[1]) if isinstance(i, tuple) else T, z3.RealVal(1), z3.RealVal(0)) for i in v.items]), True)
         if isinstance(v, (VTuple, VList)): return num(len(v.items))
         if isinstance(v, VPoint): return num(3)
         if isinstance(v, VStr):
@@ -409,6 +411,39 @@ class CallMixin:
     def str_method(self, recv, name, args, kwargs, st, n=None):
         h = self.ext.get("str." + name)
         if h is not None: return h(self, recv, args, kwargs, st, n)
+        if name == "find" and len(args) == 1 and isinstance(args[0], VStr) and not (recv.py is not None and args[0].py is not None):
+            t, sub = recv.z(), args[0].z()
+            k = z3.IndexOf(t, sub, z3.IntVal(0))
+            # lemma instances (ByteSeq.find_first, ByteSeq.take_succ): facts about the first occurrence, true of str.indexof
+            n_ = z3.Length(sub)
+            self.assume.append(AND(
+                IMP(k >= 0, AND(NOT(z3.Contains(z3.SubString(t, 0, k), sub)) if True else T, z3.SubString(t, k, n_) == sub, k + n_ <= z3.Length(t),
+                                z3.SubString(t, 0, k + n_) == z3.Concat(z3.SubString(t, 0, k), sub),
+                                t == z3.Concat(z3.SubString(t, 0, k + n_), z3.SubString(t, k + n_, z3.Length(t) - (k + n_))))),
+                IMP(k < 0, NOT(z3.Contains(t, sub))), k >= -1))
+            return VNum(z3.IntVal(0), z3.ToReal(k), True)
+        if name == "join" and len(args) == 1:
+            raw = args[0]
+            if isinstance(raw, VRef) and "$l" in st.heap.get(raw.oid, {}): raw = st.heap[raw.oid]["$l"]
+            if isinstance(raw, VList) and any(isinstance(i, tuple) for i in raw.items):
+                if not (recv.py == ""): raise Unsupported("join with a separator over guarded elements")
+                parts = []
+                for i in raw.items:
+                    p, v = (i[1], i[2]) if isinstance(i, tuple) else (T, i)
+                    parts.append(ITE(simp(p), v.z(), z3.StringVal("")))
+                return VStr(None, z3.Concat(*parts) if len(parts) > 1 else parts[0])
+            items = self.unpack(args[0], st, n)
+            if not all(isinstance(i, VStr) for i in items): raise Unsupported("join of non-strings")
+            if all(i.py is not None for i in items) and recv.py is not None: return VStr(recv.py.join(i.py for i in items))
+            parts = []
+            for k, i in enumerate(items):
+                if k: parts.append(recv.z())
+                parts.append(i.z())
+            if not parts: return VStr("")
+            return VStr(None, z3.Concat(*parts) if len(parts) > 1 else parts[0])
+        if name in ("startswith", "endswith") and len(args) == 1 and isinstance(args[0], VStr):
+            if not (recv.py is not None and args[0].py is not None):
+                return VBool(z3.PrefixOf(args[0].z(), recv.z()) if name == "startswith" else z3.SuffixOf(args[0].z(), recv.z()))
         if recv.py is not None and all(isinstance(a, VStr) and a.py is not None for a in args):
             pyargs = [a.py for a in args]
             if name in ("upper", "lower", "strip", "rstrip", "lstrip", "startswith", "endswith", "isidentifier", "replace", "split", "format", "isdigit"):
@@ -416,6 +451,8 @@ class CallMixin:
                 if isinstance(r, bool): return VBool(z3.BoolVal(r))
                 if isinstance(r, str): return VStr(r)
                 if isinstance(r, list): return VList([VStr(x) for x in r])
+        if name == "format" and not self.string_mode:
+            return VStr(None, fresh("formatted", z3.StringSort()))          # message text: opaque outside string mode
         raise Unsupported(f"str.{name} on symbolic string @ {self.where(n)}")
 
     def str_join(self, sep, els, st, n):
